@@ -336,3 +336,72 @@ func ruleCNV6(p *Program) *RuleResult {
 	r.floor("probes", 60)
 	return r
 }
+
+// CNV7: a conversion works on the System value of the item: in every toT the raw
+// item input[0] is used only as the argument of system.From; the rendered or
+// parsed text therefore always comes from the System value (whose string form
+// re-parses), never from the representation of the FHIR element it came from.
+func ruleCNV7(p *Program) *RuleResult {
+	r := newResult("CNV7")
+	for _, n := range []string{"ToBoolean", "ToInteger", "ToDecimal", "ToString", "ToDate", "ToDateTime", "ToTime", "ToQuantity"} {
+		fn, err := p.Func("fhirpath/internal/funcs/impl", n)
+		if err != nil {
+			return r.anchorFail(err)
+		}
+		r.count("conversion_functions", 1)
+		var bad []string
+		uses := 0
+		for _, b := range fn.Blocks {
+			for _, ins := range b.Instrs {
+				ia, ok := ins.(*ssa.IndexAddr)
+				if !ok || len(fn.Params) < 2 {
+					continue
+				}
+				// input[...] (directly or through the spilled parameter)
+				base := ia.X
+				if ld, ok := base.(*ssa.UnOp); ok {
+					if al, ok := ld.X.(*ssa.Alloc); ok && storesTo(al) == 1 {
+						for _, ref := range *al.Referrers() {
+							if st, ok := ref.(*ssa.Store); ok && st.Addr == ssa.Value(al) {
+								base = st.Val
+							}
+						}
+					}
+				}
+				if base != ssa.Value(fn.Params[1]) {
+					continue
+				}
+				for _, ref := range *ia.Referrers() {
+					ld, ok := ref.(*ssa.UnOp)
+					if !ok {
+						bad = append(bad, "address of input item used at "+p.instrPos(ref))
+						continue
+					}
+					for _, use := range *ld.Referrers() {
+						if _, dbg := use.(*ssa.DebugRef); dbg {
+							continue
+						}
+						uses++
+						c, ok := use.(*ssa.Call)
+						if ok && c.Common().StaticCallee() != nil && short(c.Common().StaticCallee()) == "fhirpath/system.From" {
+							continue
+						}
+						bad = append(bad, fmt.Sprintf("%T at %s", use, p.instrPos(use)))
+					}
+				}
+			}
+		}
+		key := "impl." + n + "|raw item"
+		switch {
+		case len(bad) > 0:
+			r.bad(key, fmt.Sprintf("impl.%s uses the raw input item other than through system.From: %s", n, strings.Join(bad, "; ")), p.pos(fn.Pos()),
+				"the conversion depends on how the FHIR element was written, not on its value: its result need not re-parse to an equal value")
+		case uses == 0:
+			r.undecided(key, "impl."+n+" does not read input[0]", p.pos(fn.Pos()), "shape changed")
+		default:
+			r.ok(key, "impl."+n+" reads its input item only through system.From", p.pos(fn.Pos()), "use inventory of input[0]", true)
+		}
+	}
+	r.floor("conversion_functions", 8)
+	return r
+}
